@@ -983,6 +983,32 @@ theorem store_error_is_typeerror (k : VarFields.Kind) (g : Given) (e : Attr.Err)
          · simp at h
          · injection h with h; exact h.symm)
 
+/-- What is stored for a variadic field is a function of the items the iterable had AT THE CALL only: not of whether
+    it can be iterated again, hence not of anything the caller does to its list afterwards. -/
+theorem variadic_depends_on_call_items (s1 s2 : Src Item) (h : s1.items = s2.items) :
+    store .variadic (.iter s1) = store .variadic (.iter s2) := by
+  show (if s1.items.all Item.isVar = true then (Except.ok (VarFields.Stored.many s1.items) : Except Attr.Err VarFields.Stored)
+      else .error .typeError) = (if s2.items.all Item.isVar = true then .ok (.many s2.items) else .error .typeError)
+  rw [h]
+
+/-- A whole Inputs dataclass fails with TypeError or not at all. -/
+theorem storeAll_error_is_typeerror (fs : List (String × VarFields.Kind × Given)) (e : Attr.Err)
+    (h : storeAll fs = .error e) : e = .typeError := by
+  induction fs with
+  | nil => simp [storeAll] at h
+  | cons f rest ih =>
+    obtain ⟨n, k, g⟩ := f
+    simp only [storeAll] at h
+    split at h
+    · rename_i e' he
+      injection h with h; subst h
+      exact store_error_is_typeerror k g _ he
+    · split at h
+      · rename_i e' he
+        injection h with h; subst h
+        exact ih he
+      · simp at h
+
 /-- The node's inputs of a variadic field are `key_0 … key_{n-1}` in the order of the iterable at the call. -/
 theorem flatten_variadic (key : String) (l : List Item) (rest : List (String × VarFields.Stored)) :
     flatten ((key, .many l) :: rest) = enumFrom key 0 l ++ flatten rest := rfl
